@@ -9,7 +9,7 @@ import os, subprocess
 from . import core, runner, chk_native as N
 
 QUICK = [('micro2', 2), ('micro2b', 2), ('micro3', 1), ('macro-uf', 1), ('macro-ufsat', 1), ('macro-lra', 1), ('macro-mixed', 1)]
-THOROUGH = [('macro-lia', 1), ('macro-uf', 2), ('micro2', 3), ('micro2b', 3), ('micro3', 2), ('macro-ufsat', 2), ('macro3', 1)]
+THOROUGH = [('macro-lia', 1), ('macro-lraeq', 1), ('macro-liacut', 1), ('macro-itp', 1),('macro-uf', 2), ('micro2', 3), ('micro2b', 3), ('micro3', 2), ('macro-ufsat', 2), ('macro3', 1)]
 ASAN = [('micro2', 1), ('micro2b', 1), ('macro-uf', 1)]
 
 
@@ -37,7 +37,7 @@ def run(prop, tier):
         chk.bounds_done.append({'stage': 'ASan+UBSan build, %s: all schedules with <= %d preemptions' % (h, b), 'shards': 16})
     tb = runner.harness('tsan', 'schedmc')
     e = dict(os.environ); e.update(runner.SAN_ENV)
-    nth, reps = (6, 2) if tier == 'quick' else (8, 10)
+    nth, reps = (4, 1) if tier == 'quick' else (8, 5)      # per wave: 8 waves (7 instance kinds, all threads in the same code path, + 1 mixed)
     p = subprocess.run([tb, 'race', str(nth), str(reps)], capture_output=True, text=True, env=e, timeout=3000, errors='replace')
     races = [l for l in p.stderr.split('\n') if 'WARNING: ThreadSanitizer' in l]
     for line in p.stdout.split('\n'):
